@@ -360,9 +360,15 @@ class Gen:
                 j = min(n - 1, i + span)
                 k = rng.choice([0, 0, 1, 2, lf + 1])
                 toks = self.new(k)
-                if rng.random() < 0.15:
-                    # re-insert tokens of the replaced range itself (allowed: they are inside [start, end))
-                    toks = toks + [ref[x].vid for x in range(i, j + 1)][:3]
+                if rng.random() < 0.3:
+                    # re-insert tokens of the replaced range itself (allowed: they are inside [start, end)): the first few, or
+                    # any few of them in any order; half of the time NOTHING but re-used tokens (the call shape of
+                    # `x.raw_spacing_after = x.raw_spacing_after[:1]`: some kept, the rest dropped)
+                    if rng.random() < 0.5:
+                        sub = [ref[x].vid for x in range(i, j + 1)][:3]
+                    else:
+                        sub = [ref[x].vid for x in rng.sample(range(i, j + 1), min(j - i + 1, rng.choice([1, 1, 2, 3])))]
+                    toks = ([] if rng.random() < 0.5 else toks) + sub
                 before = {t.vid for t in ref}
                 if rng.random() < 0.12:
                     # the other call shape: no start token = from the very beginning, up to and including `end`
